@@ -51,7 +51,7 @@ func (l *stLog) handler(prev, next hsms.ConnState) {
 }
 
 func TestC05Scripts(t *testing.T) {
-	ev.Rule("peer scripts of 3-14 steps over {connect, select, deselect, select+deselect in one write, select+deselect+select in one write, deselect+select in one write, separate, drop (close/reset), dwell just under / just over T7, linktest, Close, reopen, a peer connect issued at the same instant as Close, stall the state-change handler across > 16 transitions} on real connections (both roles, virtual time); oracle: State() at every quiescent point equals the E37 state the script leaves the session in (never an undone or replayed transition), T7 counts from the latest entry to NotSelected and never hits a Selected session, notifications are ordered, chained unless the library logged coalescing, never a self-transition, their last value equals State(), none arrives after Close returned; non-trivial = >= 2 state changes and one of {deselect, T7, close during connect}")
+	ev.Rule("peer scripts of 3-14 steps over {connect, select, deselect, select+deselect in one write, select+deselect+select in one write, deselect+select in one write, separate, an orphan Select/Deselect/Linktest response with status 0, drop (close/reset), dwell just under / just over T7, linktest, Close, reopen, a peer connect issued at the same instant as Close, stall the state-change handler across > 16 transitions} on real connections (both roles, virtual time); oracle: State() at every quiescent point equals the E37 state the script leaves the session in (never an undone or replayed transition), T7 counts from the latest entry to NotSelected and never hits a Selected session, notifications are ordered, chained unless the library logged coalescing, never a self-transition, their last value equals State(), none arrives after Close returned; non-trivial = >= 2 state changes and one of {deselect, T7, close during connect}")
 	vt.Bubble(t, func(t *testing.T) {
 		vt.CheckBubble(t, 4000, 200000, func(rt *rapid.T) { runC05Script(rt) })
 	})
@@ -237,7 +237,7 @@ func runC05Script(rt *rapid.T) {
 		case !linkUp:
 			ops = []string{"connect", "connect", "connect", "close", "closeRace"}
 		default:
-			ops = []string{"select", "select", "deselect", "sel+desel", "sel+desel+sel", "desel+sel", "separate", "drop", "linktest", "close", "dwell"}
+			ops = []string{"select", "select", "deselect", "sel+desel", "sel+desel+sel", "desel+sel", "separate", "drop", "linktest", "close", "dwell", "orphan-rsp"}
 			if active && hasOpenSel {
 				ops = append(ops, "answer-select", "answer-select", "answer-select")
 			}
@@ -275,6 +275,11 @@ func runC05Script(rt *rapid.T) {
 		case "select":
 			_ = p.Send(sel)
 			applySel()
+		case "orphan-rsp":
+			// a control RESPONSE that answers no open transaction (status 0, fresh system bytes): E37 has
+			// it rejected; it must not move the state machine whatever state the session is in
+			st := rapid.SampledFrom([]byte{e37.SelectRsp, e37.SelectRsp, e37.DeselectRsp, e37.LinktestRsp}).Draw(rt, "orphanType")
+			_ = p.Send(e37.Control(st, 0xffff, 0, 0, 0x7e000000+sys))
 		case "answer-select":
 			_ = p.Send(e37.Control(e37.SelectRsp, 0xffff, 0, 0, openSel))
 			hasOpenSel = false
